@@ -90,6 +90,20 @@ def run(tier):
         cmds.append("\t".join(["run", str(len(cmds)), "max=300,t=30", zw.hexq(p)])); meta.append(("runtime", p))
     for p, f in dwq:
         cmds.append("\t".join(["run", str(len(cmds)), "max=300,t=60", zw.hexq(p), os.path.join(tests, f)])); meta.append(("dwarf", p))
+    # address sets: every way one set of up to three ranges meets another under add / sub / overlap (inside a
+    # range -- the set grows by one range and its storage moves --, at its ends, spanning ranges, in the holes)
+    A_SETS = ["0 10 aset", "0 10 aset 20 30 aset add", "0 10 aset 20 30 aset add 40 50 aset add", "100 1 aset", "0 0 aset"]
+    B_SETS = ["3", "3 4 aset", "0 3 aset", "7 10 aset", "23 26 aset", "5 25 aset", "10 20 aset", "12 15 aset", "0 50 aset", "45 60 aset",
+              "0 5 aset 12 15 aset add", "3 4 aset 23 24 aset add 43 44 aset add", "60 70 aset"]
+    for a_ in A_SETS:
+        for b_ in B_SETS:
+            for w_ in ("add", "sub", "overlap", "?overlaps", "?contains"):
+                if b_ == "3" and w_ in ("overlap", "?overlaps"):
+                    continue
+                p = "%s %s %s" % (a_, b_, w_)
+                cmds.append("\t".join(["run", str(len(cmds)), "max=50,t=30", zw.hexq(p)])); meta.append(("aset", p))
+                p = "%s (|S| S %s %s [S elem] length)" % (a_, b_, w_)
+                cmds.append("\t".join(["run", str(len(cmds)), "max=50,t=30", zw.hexq(p)])); meta.append(("aset", p))
     # deep stacks of mixed types, popped several times in a row (drop, or an id block), then a word that
     # dispatches on the cached type profile (tla/Stack.tla): a stale profile selects an overload for
     # values of another class
@@ -160,7 +174,7 @@ def run(tier):
     # 2b. hooked plain build with the event trace on; the trace is validated against Lifecycle.tla
     tf = os.path.join(wd, "scon-trace.ndjson")
     env = dict(os.environ); env["DWGREP_VERIF_TRACE"] = tf
-    sub = [c for c, (k, p) in zip(cmds, meta) if k not in ("rejected", "bytes", "mutation")][: 1200 if tier == "quick" else 6000]
+    sub = [c for c, (k, p) in zip(cmds, meta) if k not in ("rejected", "bytes", "mutation", "aset")][: 1200 if tier == "quick" else 6000]
     cf = os.path.join(wd, "trace-cmds.txt")
     open(cf, "w").write("\n".join(sub) + "\n")
     start = 0
@@ -227,7 +241,7 @@ def run(tier):
     vd.sample({"program": progs[0]}); vd.sample({"rejected": REJECTED[:5]}); vd.sample({"runtime_failure": RUNTIME_FAIL[:4]})
     return vd.finish(rule="(1) TLC: lifecycle invariants (get only on live state, con only on dead, all dead after destroy at any "
                      "abandonment point) on the engine model for four families; (2) sampled TLC-enumerated programs, rejected "
-                     "queries, every byte value in ten lexical positions, random byte mutations of seed programs, run-time failures, DWARF queries and abandonment after 0..4 pulls on the ASan+UBSan+LSan build with "
+                     "queries, every byte value in ten lexical positions, random byte mutations of seed programs, address-set arithmetic of every shape (storage that grows and moves), run-time failures, DWARF queries and abandonment after 0..4 pulls on the ASan+UBSan+LSan build with "
                      "the scon shadow-map hook armed, and the call sequences over API values and stacks of tla/ApiObj.tla (every object destroyed by its last owner, then the leak check); (3) con/des/dtor event traces of the same runs and of tests/tests.sh on the "
                      "hooked build validated by TLC against tla/Lifecycle.tla; non-trivial = distinct programs",
                      level="model_checking")
